@@ -282,3 +282,32 @@ func ReadCases(path string) ([]*FileCase, error) {
 	}
 	return res, nil
 }
+
+// BuildAll builds the cases concurrently (each in its own directory); the order of cs is kept.
+func BuildAll(cs []*FileCase, scratch string, workers int) error {
+	type job struct{ i int }
+	ch := make(chan int)
+	errs := make([]error, len(cs))
+	done := make(chan struct{})
+	for w := 0; w < workers; w++ {
+		go func() {
+			for i := range ch {
+				errs[i] = cs[i].Build(scratch, i)
+			}
+			done <- struct{}{}
+		}()
+	}
+	for i := range cs {
+		ch <- i
+	}
+	close(ch)
+	for w := 0; w < workers; w++ {
+		<-done
+	}
+	for _, e := range errs {
+		if e != nil {
+			return e
+		}
+	}
+	return nil
+}
